@@ -32,7 +32,7 @@ Proj [appfmt="%(appname)"]:
         Net :: A
         Sys :: B
         C
-Seqs:
+Seqs [note="sequences"]:
     SEQ-1 [groupby="team"]:
         Net :: A <- Ping
 `
@@ -70,8 +70,10 @@ Proj [appfmt="%(appname)"]:
         Net :: q
         core :: n
         core :: m
-Seqs:
-    SEQ-1:
+Seqs [note="sequences"]:
+    SEQ-2 [owner="o", cost="c"]:
+        Sys :: b <- E
+    SEQ-1 [tier="t"]:
         Sys :: a <- E
 `
 
@@ -168,6 +170,50 @@ func oddInputs(r *common.Rng) []*input {
 	}
 	out = append(out, inputOf(m6))
 	return out
+}
+
+// ---- sort-key ties: tables, and columns of one table, declared in two files on EQUAL line numbers ----
+// (pkg/database orders tables and columns by source line; syslutil.NamedTypesInSourceOrder likewise)
+
+func tieInput(r *common.Rng, size int) *input {
+	nT := 2 + size // tables per file
+	rootT := pick(r, []string{"Zed", "account", "B2", "b10", "Order", "item"}, nT)
+	partT := pick(r, []string{"Ua", "zlog", "A9", "customer", "Payment", "m"}, nT)
+	var root, part strings.Builder
+	root.WriteString("import part\n")
+	part.WriteString("\n") // keeps both files line-aligned
+	root.WriteString("Shop [team=\"red\"]:\n")
+	part.WriteString("Shop:\n")
+	for i := 0; i < nT; i++ {
+		nc := between(r, 2, 3+size)
+		// table i of the root file: every second one is continued in the other file on the same lines (column
+		// ties); the others face a different table that starts on the same line (table ties)
+		shared := i%2 == 0
+		fmt.Fprintf(&root, "    !table %s:\n", rootT[i])
+		if shared {
+			fmt.Fprintf(&part, "    !table %s:\n", rootT[i])
+		} else {
+			fmt.Fprintf(&part, "    !table %s:\n", partT[i])
+		}
+		rc := pick(r, []string{"id", "Name", "zip", "amount", "B", "a"}, nc)
+		pc := pick(r, []string{"k9", "K10", "Total", "created", "c", "Z"}, nc)
+		for j := 0; j < nc; j++ {
+			pk := ""
+			if j == 0 {
+				pk = " [~pk]"
+			}
+			fmt.Fprintf(&root, "        %s <: int%s\n", rc[j], pk)
+			if shared {
+				fmt.Fprintf(&part, "        %s <: string\n", pc[j])
+			} else {
+				fmt.Fprintf(&part, "        %s <: int%s\n", pc[j], pk)
+			}
+		}
+	}
+	root.WriteString("    E:\n        ...\nProj [appfmt=\"%(appname)\"]:\n    all:\n        Shop\nSeqs [note=\"sequences\"]:\n    S:\n        Shop <- E\n")
+	old := strings.Replace(root.String(), "import part\n", "\n", 1)
+	return &input{Text: root.String(), Files: map[string]string{"part.sysl": part.String()}, Old: old,
+		Project: "Proj", SeqProj: "Seqs", Group: "team", Apps: []string{"Shop", "Proj", "Seqs"}}
 }
 
 // ---- older version of a model for the delta script ----
